@@ -127,6 +127,10 @@ def damaged_data_sections(case):
     return res
 
 
+MALFORMED = ['edition', '$edition', '0.edition', 'x%edition', '%x.edition', '%1x.length', '%one.length', '%.length',
+             ' length', '%%.x', '% 1 1.length']
+
+
 def check_case(case):
     out = Outcome()
     meta = case.meta
@@ -155,6 +159,7 @@ def check_case(case):
                      info=md_observation(m), full=md_observation(full))
     info = infos['default']
     # every name x every index, on the full and on the info-only message
+    nq = 0
     for mode, msg in (('full', full), ('info', info)):
         for name in ALL_NAMES:
             for index in [None] + INDICES:
@@ -162,6 +167,10 @@ def check_case(case):
                 if name.endswith(' ') or name != name.strip():
                     expr = expr           # trailing blank is stripped by the parser: still the plain name
                 found, want = expected_query(exp, index, name.strip(), mode == 'info')
+                nq += 1
+                if nq % 5 == 0:
+                    # the querent and its parser are long-lived objects: a rejected expression in between leaves nothing behind
+                    sut.call(_Q.query, msg, MALFORMED[(nq // 5) % len(MALFORMED)])
                 q = sut.call(_Q.query, msg, expr)
                 if not q.ok:
                     out.fail('metadata query raised %s (%s message)' % (q.exc_type, mode), expr=expr, error=q.msg)
@@ -182,8 +191,7 @@ def check_case(case):
         q = sut.call(_Q.query, full, expr)
         if not q.ok or q.value != want:
             out.fail('surrounding white space changes the query', expr=expr, got=repr(q))
-    for expr in ('edition', '$edition', '0.edition', 'x%edition', '%x.edition', '%1x.length', '%one.length', '%.length',
-                 ' length', '%%.x', '% 1 1.length'):
+    for expr in MALFORMED:
         q = sut.call(_Q.query, full, expr)
         if q.ok:
             out.fail('malformed metadata expression accepted', expr=expr, got=q.value)
